@@ -358,10 +358,13 @@ func doOp(task int, op *proto.Op, shared map[int]*argSlice, st *taskState) {
 		st.viol = append(st.viol, proto.Violation{Class: "result_mismatch", Task: task, Op: op.ID, Fn: op.Fn,
 			Detail: fmt.Sprintf("%s(%q, %q) differs from the sequential reference", op.Fn, op.Expr, op.List), Expected: op.Expect, Observed: outcome})
 	}
-	if res.kind != 0 {
-		if op.ScribbleRes {
+	if res.kind != 0 || res.err != nil {
+		if op.ScribbleRes && res.kind != 0 {
 			res.scribble(op.ID)
 			st.scribR++
+			if res.err != nil {
+				st.retained = append(st.retained, retained{task, op.ID, op.Fn, result{err: res.err}, result{err: res.err}.fingerprint()})
+			}
 		} else if a == nil || !aliases(res, a) {
 			// (a result that shares memory with the caller's own argument buffer is not
 			// monitored: the caller may rewrite that buffer later)
